@@ -252,8 +252,40 @@ func genCase(r *Rng, seq int) Case {
 		if name == "Tip" && !tipTerminates(n, c.Rows*c.Cols) {
 			continue
 		}
+		if c.Sparse && name == "Swap" {
+			// the sparse vector Swap has no bounds check at all: on an overreaching window it moves
+			// entries beyond the vector's length, a state no operation is specified on
+			n, k = clampViews(&c)
+		}
 		c.Op = genOp(r, name, n, k, c.Rows*c.Cols, isReal(c.Type))
 		break
 	}
 	return c
+}
+
+// clampViews forces every slice of the view program into its guard; returns the final dimensions
+func clampViews(c *Case) (int, int) {
+	n, k := c.Rows, c.Cols
+	cl := func(x, lo, hi int) int {
+		if x < lo {
+			return lo
+		}
+		if x > hi {
+			return hi
+		}
+		return x
+	}
+	for i := range c.Views {
+		v := &c.Views[i]
+		if v.K == "T" {
+			n, k = k, n
+			continue
+		}
+		v.A[0] = cl(v.A[0], 0, n)
+		v.A[1] = cl(v.A[1], v.A[0], n)
+		v.A[2] = cl(v.A[2], 0, k)
+		v.A[3] = cl(v.A[3], v.A[2], k)
+		n, k = v.A[1]-v.A[0], v.A[3]-v.A[2]
+	}
+	return n, k
 }
